@@ -651,19 +651,19 @@ theorem world_tx_liquidation_cannot_worsen_health {w w' : WState} {tx : List TOp
       (w.rctx a ok r true 0).portfolio = .ok ps0 ∧
       Mfi.Risk.components ps0 .maint = .ok m0 ∧ Mfi.Risk.components ps0 .equity = .ok e0 ∧ m0.assets - m0.liabs ≤ 0 ∧
       ∃ (signer : Nat) (rok wok : Bool) (feeMax : Int), tx[tx.length - 1]? = some (.endLiq a0 signer rok wok feeMax) ∧ signer = r ∧
-        ∃ (wl : WState) (al : AcctV) (psl : List Mfi.Risk.Pos) (ml el : Mfi.Risk.Comps), wl.accts[a0]? = some al ∧
+        ∃ (wl : WState) (al : AcctV) (psl : List Mfi.Risk.Pos) (ml el : Mfi.Risk.Comps), w.before tx (tx.length - 1) = some wl ∧ wl.accts[a0]? = some al ∧
           (wl.rctx al rok signer wok feeMax).portfolio = .ok psl ∧
           Mfi.Risk.components psl .maint = .ok ml ∧ Mfi.Risk.components psl .equity = .ok el ∧
           m0.assets - m0.liabs ≤ ml.assets - ml.liabs ∧
           (5 * Mfi.Fx.ONE ≤ e0.assets →
             ml.assets - ml.liabs ≤ 0 ∧
             e0.assets - el.assets ≤ Mfi.Fx.wrap (((e0.liabs - el.liabs) * Mfi.Risk.maxPremium feeMax) / Mfi.Fx.ONE)) := by
-  obtain ⟨a, ps0, cache, ha, hps0, hcache, signer, rok, wok, feeMax, hlast, hsig, wl, al, psl, seized, repaid, hal, hpsl, hend⟩ :=
+  obtain ⟨a, ps0, cache, ha, hps0, hcache, signer, rok, wok, feeMax, hlast, hsig, wl, al, psl, seized, repaid, hbl, hal, hpsl, hend⟩ :=
     tx_liquidation_closed h h0 hs
   obtain ⟨m0, e0, hm0, he0, hneg, ecache⟩ := start_only_when_unhealthy hcache
   obtain ⟨ml, el, hml, hel, hworse, hsz, hrp, hfive⟩ := end_liquidation_spec hend
   subst ecache
-  refine ⟨a, ps0, m0, e0, ha, hps0, hm0, he0, hneg, signer, rok, wok, feeMax, hlast, hsig, wl, al, psl, ml, el, hal, hpsl, hml, hel, hworse, ?_⟩
+  refine ⟨a, ps0, m0, e0, ha, hps0, hm0, he0, hneg, signer, rok, wok, feeMax, hlast, hsig, wl, al, psl, ml, el, hbl, hal, hpsl, hml, hel, hworse, ?_⟩
   intro h5
   obtain ⟨p1, p2⟩ := hfive h5
   refine ⟨p1, ?_⟩
@@ -709,15 +709,15 @@ theorem world_tx_deleverage_cannot_worsen_health {w w' : WState} {tx : List TOp}
     ∃ (a : AcctV) (ps0 : List Mfi.Risk.Pos) (m0 : Mfi.Risk.Comps), w.accts[a0]? = some a ∧ w.g.riskAdmin = r ∧ a.group = w.g.key ∧
       (w.rctx a ok r true 0).portfolio = .ok ps0 ∧ Mfi.Risk.components ps0 .maint = .ok m0 ∧
       ∃ (signer : Nat) (rok : Bool), tx[tx.length - 1]? = some (.endDelev a0 signer rok) ∧ signer = r ∧
-        ∃ (wl : WState) (al : AcctV) (psl : List Mfi.Risk.Pos) (ml : Mfi.Risk.Comps), wl.accts[a0]? = some al ∧
+        ∃ (wl : WState) (al : AcctV) (psl : List Mfi.Risk.Pos) (ml : Mfi.Risk.Comps), w.before tx (tx.length - 1) = some wl ∧ wl.accts[a0]? = some al ∧
           (wl.rctx al rok signer true 0).portfolio = .ok psl ∧ Mfi.Risk.components psl .maint = .ok ml ∧
           m0.assets - m0.liabs ≤ ml.assets - ml.liabs := by
-  obtain ⟨a, ps0, cache, ha, hadm, hgrp, hps0, hcache, signer, rok, hlast, hsig, wl, al, psl, seized, repaid, hal, hpsl, hend⟩ :=
+  obtain ⟨a, ps0, cache, ha, hadm, hgrp, hps0, hcache, signer, rok, hlast, hsig, wl, al, psl, seized, repaid, hbl, hal, hpsl, hend⟩ :=
     tx_deleverage_closed h h0 hs
   obtain ⟨m0, e0, hm0, _, ecache⟩ := start_deleverage_snapshot hcache
   obtain ⟨ml, hml, hworse⟩ := end_deleverage_spec hend
   subst ecache
-  exact ⟨a, ps0, m0, ha, hadm, hgrp, hps0, hm0, signer, rok, hlast, hsig, wl, al, psl, ml, hal, hpsl, hml, hworse⟩
+  exact ⟨a, ps0, m0, ha, hadm, hgrp, hps0, hm0, signer, rok, hlast, hsig, wl, al, psl, ml, hbl, hal, hpsl, hml, hworse⟩
 
 /-- **world_txs_control_never_survives**: from a state in which no account is in receivership and no liquidation record names a
     receiver, after ANY sequence of transactions of the world machine — committed or rolled back; brackets of both kinds, flash
